@@ -148,7 +148,8 @@ REVERTS = [
     ("optimization_options=None / solver_options=None must be accepted", ["C19"]),
     ("stDiGraph.get_width must count an ignored edge once", ["C09"]),
     ("safe-sequence computation must not recurse once per node of a path", ["C09"]),
-    ("flow decomposition models must accept numpy-typed flow values", ["C19"]),
+    # ("flow decomposition models must accept numpy-typed flow values", ["C19"]):  superseded - since fc5988a the internal s-t graphs store
+    # plain Python numbers, so reverting 9e46d14 alone changes no behaviour any more (reverting fc5988a is caught by C07 / C09 / C05)
     ("round the weight bound up instead of truncating it", ["C08", "C07"]),
     ("kMinPathError with all path-length factors below 1", ["C08"]),
     ("a constraint-list entry that is not a list", ["C19"]),
